@@ -844,7 +844,9 @@ func (sc *SchedulerCache) triggerUpdateHyperNode(name string) error {
 			klog.ErrorS(err, "Failed to get node regex match leaf hyperNode", "nodeName", name, "hyperNodeName", hn.Name)
 			continue
 		}
-		if !match {
+		// A node that the hyperNode currently lists but that does not match any more (it was
+		// deleted, so its labels cannot be looked up, or its labels changed) must be dropped.
+		if !match && !sc.HyperNodesInfo.HyperNodeHasRealNode(hn.Name, name) {
 			continue
 		}
 
